@@ -21,6 +21,11 @@ def td_lattice():
         for n in (0, 1, 999, 1000, 999999, 500000000, 999999999, MAXN - 1, MAXN, MAXN + 1, MINN - 1, MINN, MINN + 1, 100000000, 120000000):
             if valid(s, n):
                 out.append([s, n])
+    # durations whose nanosecond count sits at the i64 boundary (num_nanoseconds() Some / None edge:
+    # a fast path through i64 nanoseconds meets i64::MIN / -1 exactly here)
+    for ns in around([2**63 - 1, -2**63], (-1, 0, 1)):
+        if [ns // G, ns % G] not in out:
+            out.append([ns // G, ns % G])
     return out
 
 
